@@ -31,6 +31,9 @@ Only these lexical normalisations are applied to copied text (each counted, see 
   N7 (only with option `tail-loop` on a function whose body ends in a single `loop { .. }` expression) `break EXPR;` inside that
      loop becomes `return EXPR;` (the loop is the function's tail expression, so breaking out of it with a value IS returning
      that value; Verus has no `break` with a value)
+  N8 `RECV.method(..).map(Ctor)?` with `Ctor` a tuple-struct / enum-variant constructor path (last segment capitalised) becomes
+     `Ctor(RECV.method(..)?)`: for a Result, mapping a total, effect-free constructor over the Ok value and then applying `?`
+     is the same as applying `?` first and the constructor afterwards (Verus has no constructors as function values)
 No expression is rewritten otherwise. Ghost text (loop invariants, proof blocks) named in the unit template is spliced
 into bodies at loop ordinals / after exact statement texts, always on the same output line so that line numbers of the
 body still correspond to the source (annotation in place; ghost code only, erased at compile time).
@@ -389,7 +392,7 @@ class Normaliser:
         self.counts = {'N1_visibility': 0, 'N2_attrs_docs_dropped': 0, 'N3_ret_named_contract_spliced': 0,
                        'N4_cfg_statistics_or_allow_dropped': 0, 'N4b_cfg_attribute_dropped_code_kept': 0,
                        'N5_ref_pattern_desugared': 0,
-                       'N6_impl_iterator_return_type': 0, 'N7_tail_loop_break_value': 0, 'G_ghost_splices': 0}
+                       'N6_impl_iterator_return_type': 0, 'N7_tail_loop_break_value': 0, 'N8_map_constructor_then_try': 0, 'G_ghost_splices': 0}
 
     def vis(self, s):
         def rep(m):
@@ -780,6 +783,15 @@ def expand(template_path, repo):
             body = norm.body(body)
             if not external:
                 body = norm.refpat(body)
+                # N8
+                n8pat = re.compile(r'(\b[a-z_]\w*(?:\s*\.\s*[a-z_]\w*\([^()]*\))+)\s*\.\s*map\(((?:[A-Za-z_]\w*::)*[A-Z]\w*)\)\?')
+                sc8 = Scan(body)
+                def _n8(m8):
+                    if not sc8.is_code(m8.start()):
+                        return m8.group(0)
+                    norm.counts['N8_map_constructor_then_try'] += 1
+                    return f'{m8.group(2)}({m8.group(1)}?)'
+                body = n8pat.sub(_n8, body)
                 if 'tail-loop' in opts:
                     sc7 = Scan(body)
                     loops = [m for m in sc7.finditer_code(r'\b(loop|while|for)\b')]
